@@ -122,28 +122,19 @@ Proof. exact psk_mode_within_both. Qed.
 
 (* ---- resumed connections (abbreviated handshake of TLS <= 1.2; TLS 1.3 resumption is `negotiate` with the
    ticket as PSK 999 and is covered by the theorems above) -------------------------------------------------
-   FULL STATEMENT: after negotiate c s = Ok o, a second connection between any configurations c2 s2 that
-   offers the stored session (by ID or by ticket) and completes, resumed or not, leaves both ends with
-   identical version, suite, EtM, EMS, NPN, SNI, record limits, secret inputs and ALPN.  Proved for every
-   field but ALPN; for ALPN the statement is false of the faithful model (the client keeps the stored
-   session's protocol when the resumed ServerHello carries none): refuted below, proved when the original
-   connection negotiated no ALPN. *)
-Theorem resumed_views_agree_partial : forall t c s o c2 s2 r, negotiate c s = Ok o ->
+   After negotiate c s = Ok o, a second connection between ANY configurations c2 s2 that offers the stored
+   session (by ID or by ticket) and completes -- resumed, or fallen back to a full handshake -- leaves both
+   ends with identical version, suite, EtM, EMS, ALPN, NPN, SNI, record limits and secret inputs.
+   (Until /repo 7678352 the ALPN part was refuted: the client kept the stored session's protocol when the
+   resumed ServerHello carried none -- former finding C03-15, theorem `resumed_views_agree_refuted_alpn`.) *)
+Theorem resumed_views_agree : forall t c s o c2 s2 r, negotiate c s = Ok o ->
   resume_legacy t c2 s2 (oc_client o) (oc_server o) = Ok r ->
-  views_agree_but_alpn (rs_client r) (rs_server r) /\
-  (vw_alpn (rs_client r) = vw_alpn (rs_server r) \/
-   (rs_resumed r = true /\ vw_alpn (rs_server r) = None /\ vw_alpn (rs_client r) = vw_alpn (oc_client o))).
+  let cv := rs_client r in let sv := rs_server r in
+  vw_version cv = vw_version sv /\ vw_suite cv = vw_suite sv /\ vw_etm cv = vw_etm sv /\
+  vw_ems cv = vw_ems sv /\ vw_alpn cv = vw_alpn sv /\ vw_npn cv = vw_npn sv /\ vw_sni cv = vw_sni sv /\
+  vw_send_limit cv = vw_recv_limit sv /\ vw_recv_limit cv = vw_send_limit sv /\
+  vw_secret cv = vw_secret sv.
 Proof. exact resumed_after_negotiate. Qed.
-
-Theorem resumed_alpn_agrees_partial : forall t c s o c2 s2 r, negotiate c s = Ok o ->
-  resume_legacy t c2 s2 (oc_client o) (oc_server o) = Ok r ->
-  vw_alpn (oc_client o) = None -> vw_alpn (rs_client r) = vw_alpn (rs_server r).
-Proof. exact resumed_alpn_agrees. Qed.
-
-Theorem resumed_views_agree_refuted_alpn :
-  exists t c s o c2 s2 r, negotiate c s = Ok o /\ resume_legacy t c2 s2 (oc_client o) (oc_server o) = Ok r /\
-                          vw_alpn (rs_client r) <> vw_alpn (rs_server r).
-Proof. exact resumed_views_agree_refuted_alpn_pf. Qed.
 
 (* ---- "otherwise the handshake fails with an alert": false of the faithful model -------------- *)
 Theorem failure_is_alert_refuted : refuted_unless fix_sigalg_assert
